@@ -203,6 +203,33 @@ func (p c01) Gen(r *simhook.Rand, tier string, idx int) harness.Scenario {
 			}
 			sc.Faults = append(sc.Faults, Fault{Kind: "mig-start", From: slot, Dst: r.Intn(sc.Env.Masters), AfterSend: r.Intn(200)})
 		}
+		if r.Chance(1, 3) {
+			// with a compression section present (threshold above every value, so no byte changes) the backend writers
+			// run the filter chain and every request carries one more completion hook; requests are redirected up to
+			// twice (MOVED by a stale table, then ASK by the migration); slow migrations keep the ASK phase open
+			sc.Class = "migration+filters"
+			sc.Env.Compression = &world.Compression{Enable: true, Threshold: 1 << 20}
+			sc.MigStepMs = []int{0, 50, 2000}[r.Intn(3)]
+			for ci := range sc.Conns {
+				for ri := range sc.Conns[ci].Reqs {
+					a := sc.Conns[ci].Reqs[ri].Args
+					for _, b := range c13Banned {
+						if len(a) >= 2 && strings.EqualFold(string(a[0]), b) {
+							// refused in compress mode: keep the programs free of these here
+							sc.Conns[ci].Reqs[ri].Args = world.Bins("STRLEN", string(a[1]))
+						}
+					}
+				}
+			}
+			// one slot is first handed to another master (the proxy's table goes stale: MOVED) and then migrated
+			// onwards from there (ASK): a request for it makes three trips
+			if pre := sc.Env.Preload; len(pre) > 0 {
+				slot := cluster.Slot(pre[r.Intn(len(pre))].K)
+				at := r.Intn(150)
+				sc.Faults = append(sc.Faults, Fault{Kind: "layout", From: slot, To: slot, Dst: r.Intn(sc.Env.Masters), AfterSend: at})
+				sc.Faults = append(sc.Faults, Fault{Kind: "mig-start", From: slot, Dst: r.Intn(sc.Env.Masters), AfterSend: at + 1 + r.Intn(40)})
+			}
+		}
 	}
 	return sc
 }
@@ -243,7 +270,7 @@ func (p c01) Run(t *testing.T, s harness.Scenario) harness.Outcome {
 				ci := ci
 				c.OnReply = func(c *world.Client, s *world.Sent) {
 					e := st.expected[ci][s.Idx]
-					if sc.Class == "migration" {
+					if strings.HasPrefix(sc.Class, "migration") {
 						if v := belongsTo(sc, c, s); v != nil && st.bad == nil {
 							st.bad = v
 						}
@@ -274,7 +301,7 @@ func (p c01) Run(t *testing.T, s harness.Scenario) harness.Outcome {
 				return &simrtViolation{Clause: "no-trailing-bytes", Detail: fmt.Sprintf("connection %s: %d bytes after the last reply: %q", c.Name, len(c.Pending()), trunc(c.Pending(), 60))}
 			}
 		}
-		if sc.Class == "migration" {
+		if strings.HasPrefix(sc.Class, "migration") {
 			return nil
 		}
 		// every forwarded sub-command was executed by a backend exactly once
